@@ -266,6 +266,7 @@ class ModelCfg:
     p_ref_deriv: float = 0.15      # an assignment that mentions a derivative by name
     expr: ExprCfg = field(default_factory=ExprCfg)
     plain_names: bool = False
+    force_comps: bool = False   # at least two named components
 
 
 def gen_value(rng, cfg: ModelCfg):
@@ -288,12 +289,14 @@ def gen_value(rng, cfg: ModelCfg):
 def gen_model(rng: random.Random, cfg: ModelCfg | None = None) -> GModel:
     cfg = cfg or ModelCfg()
     ncomp = rng.randint(1, cfg.max_comps)
+    if cfg.force_comps:
+        ncomp = max(2, ncomp)
     if ncomp == 1 and rng.random() < 0.6:
         comps = [""]
     else:
         comps = [f"C{i}" if rng.random() < 0.7 else rng.choice(["Membrane", "I Na", "gate m", "Ca dyn", "K"]) + str(i)
                  for i in range(ncomp)]
-        if rng.random() < 0.25:
+        if rng.random() < 0.25 and not cfg.force_comps:
             comps[0] = ""
     m = GModel(comps=comps)
     used: set[str] = set()
